@@ -1023,15 +1023,15 @@ package lang
 //@ spec func opaque tableOK(m map[TokenTag]parseRule) bool = forall t TokenTag :: (inTable(t) ==> has(m, t) && m[t].prec == specPrec(t) && prefixOK(m[t], t) && infixOK(m[t], t)) && (!inTable(t) ==> !has(m, t))
 // p.depth counts the expressions and statements being parsed; C01: it never exceeds the limit, so the
 // recursive descent cannot overflow the Go stack on deeply nested program text.
-//@ spec func parserOK(p *Parser) bool = p != nil && p.lexer != nil && lexOK(p.lexer) && p.current != nil && p.rules != nil && tableOK(p.rules) && (p.current.Tag != EOF ==> p.lexer.tokenStart < p.lexer.pos) && 0 <= p.depth && p.depth <= parseDepthLimit
-//@ modset parserState = p.current, p.previous, p.didEndStatement, p.inLoop, p.inFunction, p.depth, p.lexer.pos, p.lexer.tokenStart
+//@ spec func parserOK(p *Parser) bool = p != nil && p.lexer != nil && lexOK(p.lexer) && p.current != nil && p.rules != nil && tableOK(p.rules) && (p.current.Tag != EOF ==> p.lexer.tokenStart < p.lexer.pos) && 0 <= p.depth && p.depth <= parseDepthLimit && (p.pendingErr == nil || isSyn(p.pendingErr))
+//@ modset parserState = p.current, p.previous, p.didEndStatement, p.inLoop, p.inFunction, p.depth, p.pendingErr, p.lexer.pos, p.lexer.tokenStart
 
 // Every parsing function: syntax errors only, a node on success, the loop/function context flags
 // restored, nothing but the parser's own cursor state (and fresh nodes) written, no output.
 //@ functype parseRule.prefix
 //@   requires parserOK(arg0) && has(arg0.rules, arg0.current.Tag) && arg0.rules[arg0.current.Tag].prefix == thisfn()
 //@   updates nothing
-//@   modifies arg0.current, arg0.previous, arg0.didEndStatement, arg0.inLoop, arg0.inFunction, arg0.lexer.pos, arg0.lexer.tokenStart
+//@   modifies arg0.current, arg0.previous, arg0.didEndStatement, arg0.inLoop, arg0.inFunction, arg0.pendingErr, arg0.lexer.pos, arg0.lexer.tokenStart
 //@   ensures[C01] errkind: result1 == nil || isSyn(result1)
 //@   ensures[C01] node: result1 == nil ==> result0 != nil
 //@   ensures[C07,C11] context-restored: arg0.inLoop == old(arg0.inLoop) && arg0.inFunction == old(arg0.inFunction) && arg0.depth == old(arg0.depth)
@@ -1039,7 +1039,7 @@ package lang
 //@ functype parseRule.infix
 //@   requires parserOK(arg0) && arg1 != nil && has(arg0.rules, arg0.current.Tag) && arg0.rules[arg0.current.Tag].infix == thisfn()
 //@   updates nothing
-//@   modifies arg0.current, arg0.previous, arg0.didEndStatement, arg0.inLoop, arg0.inFunction, arg0.lexer.pos, arg0.lexer.tokenStart
+//@   modifies arg0.current, arg0.previous, arg0.didEndStatement, arg0.inLoop, arg0.inFunction, arg0.pendingErr, arg0.lexer.pos, arg0.lexer.tokenStart
 //@   ensures[C01] errkind: result1 == nil || isSyn(result1)
 //@   ensures[C01] node: result1 == nil ==> result0 != nil
 //@   ensures[C07,C11] context-restored: arg0.inLoop == old(arg0.inLoop) && arg0.inFunction == old(arg0.inFunction) && arg0.depth == old(arg0.depth)
@@ -1053,19 +1053,26 @@ package lang
 //@   ensures[C12] message: result.Message == msg
 //@   modifies nothing
 
-//@ func Parser.advance [C01,C13]
-//@   requires p != nil && p.lexer != nil && lexOK(p.lexer)
+// C11/C12: a lexical error met by atStatementEnd (which has no error result) is kept in p.pendingErr and
+// is what the next parsing step reports; it is never cleared.
+//@ func Parser.advance [C01,C11,C12,C13]
+//@   requires p != nil && p.lexer != nil && lexOK(p.lexer) && (p.pendingErr == nil || isSyn(p.pendingErr))
+//@   ensures[C11,C12] a-pending-lexical-error-is-what-is-reported: old(p.pendingErr) != nil ==> err == old(p.pendingErr)
+//@   ensures[C11,C12] pending-error-kept: p.pendingErr == old(p.pendingErr)
+//@   ensures[C11,C12] nothing-is-read-past-a-pending-error: old(p.pendingErr) != nil ==> p.current == old(p.current) && p.previous == old(p.previous) && p.lexer.pos == old(p.lexer.pos) && p.lexer.tokenStart == old(p.lexer.tokenStart)
 //@   updates nothing
 //@   modifies parserState
 //@   ensures[C01] errkind: err == nil || isSyn(err)
 //@   ensures[C13] newline-skipped: err == nil ==> p.current != nil && p.current.Tag != Newline && (p.current.Tag != EOF ==> p.lexer.tokenStart < p.lexer.pos)
-//@   ensures strict: err != nil ==> p.lexer.tokenStart < p.lexer.pos
+//@   ensures strict: err != nil && old(p.pendingErr) == nil ==> p.lexer.tokenStart < p.lexer.pos
 //@   loop 0 invariant skipping-newlines: p.current == &t && p.previous == old(p.current) && p.lexer == old(p.lexer) && lexOK(p.lexer) && p.rules == old(p.rules) && p.inLoop == old(p.inLoop) && p.inFunction == old(p.inFunction) && p.depth == old(p.depth) && tokOKT(t) && (t.Tag != EOF ==> p.lexer.tokenStart < p.lexer.pos)
 //@   ensures previous: err == nil ==> p.previous == old(p.current)
 //@   ensures ok: p.lexer == old(p.lexer) && lexOK(p.lexer) && p.rules == old(p.rules) && (old(p.current) != nil ==> p.current != nil) && p.inLoop == old(p.inLoop) && p.inFunction == old(p.inFunction) && p.depth == old(p.depth) && (old(p.previous) != nil && old(p.current) != nil ==> p.previous != nil)
 
-//@ func Parser.consume [C01]
+//@ func Parser.consume [C01,C11]
 //@   requires parserOK(p)
+//@   ensures[C11,C12] pending-error-kept: p.pendingErr == old(p.pendingErr)
+//@   ensures[C11,C12] a-pending-lexical-error-stops-the-parse: old(p.pendingErr) != nil ==> result != nil
 //@   updates nothing
 //@   modifies parserState
 //@   ensures[C01] errkind: result == nil || isSyn(result)
@@ -1074,9 +1081,14 @@ package lang
 //@   loop 0 invariant ok: parserOK(p) && (match ==> (exists k int :: 0 <= k && k < len(tags) && tags[k] == p.current.Tag))
 //@   loop 1 invariant ok: parserOK(p)
 
-//@ func Parser.atStatementEnd [C13]
+//@ ghost $cerr error
+//@ func Parser.atStatementEnd [C11,C12,C13]
 //@   requires parserOK(p)
 //@   updates nothing
+//@   init $cerr = nil
+//@   after Parser.consume: $cerr = ret0
+//@   ensures[C11,C12] a-lexical-error-behind-the-semicolon-is-kept: $cerr != nil ==> p.pendingErr != nil
+//@   ensures[C11,C12] pending-error-kept: old(p.pendingErr) != nil ==> p.pendingErr != nil
 //@   ensures[C13] what-ends-a-statement: result == (old(p.didEndStatement) || old(p.current.Tag) == RCurly || old(p.current.Tag) == SemiColon)
 //@   ensures[C13] only-a-semicolon-is-consumed: !(old(p.current.Tag) == SemiColon && !old(p.didEndStatement)) ==> p.current == old(p.current) && p.didEndStatement == old(p.didEndStatement)
 //@   modifies parserState
@@ -1201,7 +1213,7 @@ package lang
 //@   loop 0 invariant ok: parserOK(p) && p.inLoop == old(p.inLoop) && p.inFunction
 
 //@ func Parser.ParseExpression [C01,C11,C14]
-//@   requires p != nil && p.lexer != nil && lexOK(p.lexer) && p.rules != nil && tableOK(p.rules) && p.depth == 0 && 0 < parseDepthLimit
+//@   requires p != nil && p.lexer != nil && lexOK(p.lexer) && p.rules != nil && tableOK(p.rules) && p.depth == 0 && 0 < parseDepthLimit && p.pendingErr == nil
 //@   updates nothing
 //@   modifies parserState
 //@   ensures[C11,C14] nothing-follows-the-expression: err == nil ==> p.previous != nil && p.previous.Tag == EOF
@@ -1209,7 +1221,7 @@ package lang
 //@   ensures[C01] node: err == nil ==> result0 != nil
 
 //@ func Parser.Parse [C01,C11]
-//@   requires p != nil && p.lexer != nil && lexOK(p.lexer) && p.rules != nil && tableOK(p.rules) && !p.inLoop && !p.inFunction && p.depth == 0 && 0 < parseDepthLimit
+//@   requires p != nil && p.lexer != nil && lexOK(p.lexer) && p.rules != nil && tableOK(p.rules) && !p.inLoop && !p.inFunction && p.depth == 0 && 0 < parseDepthLimit && p.pendingErr == nil
 //@   updates nothing
 //@   modifies parserState
 //@   ensures[C01] errkind: err == nil || isSyn(err)
@@ -1220,7 +1232,7 @@ package lang
 //@   requires l != nil
 //@   updates nothing
 //@   modifies nothing
-//@   ensures ready: result.lexer == l && result.rules != nil && result.current == nil && !result.inLoop && !result.inFunction && result.depth == 0 && 0 < parseDepthLimit
+//@   ensures ready: result.lexer == l && result.rules != nil && result.current == nil && !result.inLoop && !result.inFunction && result.depth == 0 && 0 < parseDepthLimit && result.pendingErr == nil
 //@   ensures[C06] table-is-the-ladder: tableOK(result.rules)
 
 //@ func literal [C01,C06]
